@@ -70,19 +70,20 @@ void H::end()
                  s.tsize, s.twritten, s.tconsumed, s.tcache, s.mutated, s.orafail, s.has_str);
     if (k < msgs.size()) { std::fprintf(out, "\"got\":\"%s\",", hex(msgs[k]).c_str()); ++k; }
     else { std::fprintf(out, "\"got\":null,"); }
-    std::vector<std::string> raw, san;
-    for (auto const& e : s.exp_raw)
-    {
-      raw.push_back(hex(e));
-      // the backend's own sanitiser with the configured check_printable_char
-      std::string c = e;
+    // the backend's own sanitiser with the configured check_printable_char
+    auto sanitise = [](std::string c) {
       if (g_bopts.check_printable_char) { quill::detail::BackendWorker::sanitize_non_printable_chars(c, g_bopts); }
-      san.push_back(hex(c));
-    }
+      return c;
+    };
+    std::vector<std::string> raw, san, alt;
+    for (auto const& e : s.strict_raw) { raw.push_back(hex(e)); san.push_back(hex(sanitise(e))); }
+    for (auto const& e : s.exp_raw) { alt.push_back(hex(sanitise(e))); }
     std::fprintf(out, "\"raw\":");
     jstr_list(out, raw);
     std::fprintf(out, ",\"exp\":");
     jstr_list(out, san);
+    std::fprintf(out, ",\"alt\":");
+    jstr_list(out, alt);
     std::fprintf(out, "}\n");
     while (pi < polled_upto.size() && polled_upto[pi] == i + 1)
     {
@@ -112,7 +113,7 @@ static void caller_main(H& h, std::vector<int> const& only)
     LOG_INFO(h.logger, "calibrate");
     h.log_end();
     if (k == 1) { h.hdr_bytes = h.cur().reserved; }
-    h.expect([] { return std::string{"calibrate"}; });
+    h.expect_strict([] { return std::string{"calibrate"}; });
     h.poll_now();
     h.end();
   }
